@@ -1528,7 +1528,14 @@ impl<T: Storage> Raft<T> {
                     to_send.commit = commit;
                     to_send.commit_term = commit_term;
                     self.r.send(to_send, &mut self.msgs);
-                    self.maybe_commit_by_vote(&m);
+                    // A pre-vote request carries the sender's next term and does not change our
+                    // term. Its commit info may only be used if it was decided in a term that is
+                    // not beyond ours: otherwise a stale leader of our own, older term would take
+                    // the "index = committed" answer to its appends as an acknowledgement of
+                    // entries we do not hold.
+                    if m.get_msg_type() != MessageType::MsgRequestPreVote || m.term <= self.term + 1 {
+                        self.maybe_commit_by_vote(&m);
+                    }
                 }
             }
             _ => match self.state {
